@@ -132,7 +132,7 @@ def run(ctx):
     good = [p for p in pairs if not p["bad"]]
     rng.shuffle(bad)
     rng.shuffle(good)
-    nbad, ngood = ctx.pick((24, 90), (300, 800))
+    nbad, ngood = ctx.pick((16, 56), (300, 800))
     sel = bad[:nbad] + good[:ngood]
     ctx.log("pair interleavings: %d complete schedules generated (%d leave the model of the code unconverged), %d selected"
             % (len(pairs), len(bad), len(sel)))
@@ -150,7 +150,7 @@ def run(ctx):
                 p["kind"] = "witness"
             scheds += w[:4]
     # (a) long single-client histories with the worker flushing at generated points; concurrent random walks
-    n1, n3 = ctx.pick((14, 24), (120, 250))
+    n1, n3 = ctx.pick((10, 16), (120, 250))
     for p in gen_walks(ctx, ["c1"], n1, ctx.pick(10, 14), ctx.seed):
         p["kind"] = "walk1"
         scheds.append(p)
@@ -254,7 +254,7 @@ def run(ctx):
     nfree = 0
     if not ctx.violations:
         FREE = 100000
-        walk1 = [p for p in scheds if p["kind"] == "walk1"]
+        walk1 = [p for p in scheds if p["kind"] == "walk1"][:ctx.pick(6, 1000)]
         sf, tf = ctx.path("sched-free.ndjson"), ctx.path("trace-free.ndjson")
         vlib.write_ndjson(sf, [{"id": FREE + p["id"], "steps": p["steps"]} for p in walk1])
         p = ctx.run([drv, "-free", ctx.path("state-free"), sf, tf], timeout=3000)
@@ -352,7 +352,7 @@ def run(ctx):
             if consumed == len(t):
                 raise vlib.Infra("binding self-test failed: corrupted trace (%s) was accepted" % name)
             res[name] = "rejected at line %d of %d" % (consumed + 1, len(t))
-            if ctx.tier == "quick" and len(res) >= 2:
+            if ctx.tier == "quick":
                 break
         ctx.extra["binding_selftest"] = res
 
